@@ -42,6 +42,18 @@ KINDS = ['simple', 'contract', 'transport', 'ext_transport', 'storage', 'storage
 VALUE_TOL = 2e-6
 FEAS_TOL = 1e-6
 
+# registry entries for the property module (module, theorem, reading)
+THEOREMS_C02 = [
+    ('EAO.Properties.C02', 'EAO.C02.portfolio_refines', 'if every asset problem and its textbook semantics dominate each other (same flows, no less cash, both directions), then every feasible point of the assembled problem maps to a textbook-feasible portfolio point with the same flows per asset and no less value, and vice versa; hence the same upper bounds of the value sets = the same optimum (no optimum assumed to exist)'),
+    ('EAO.Properties.C02', 'EAO.C02.storage_refines_two', 'plain LP storage, two variables per step (efficiency, in/out costs, two nodes): the problem buildStorage returns and the textbook storage (rates, level recursion with efficiency on the charge side, 0<=L<=size, L_last=end, flows -ch/+di, cash incl. holding cost on the level) have the SAME attainable (flows, cash) pairs; eaopack value = textbook cash + holdingConstant'),
+    ('EAO.Properties.C02', 'EAO.C02.storage_refines_one', 'the same for the one-variable form (x = di - ch)'),
+    ('EAO.Properties.C02', 'EAO.C02.transport_refines', 'buildTransport vs textbook transport (f in [min,max]*dt, flows -f / +eff*f, cash -df*cost*|f|): same attainable pairs, incl. the sign flip of the costs when all capacities are <= 0'),
+    ('EAO.Properties.C02', 'EAO.C02.contract_refines_one', 'buildSimpleContract in its one-variable form vs textbook contract (q in [min_t,max_t]*dt_t with the rates make_vector returns, flow +q, cash -df*(price*q + ec*|q|)): same attainable pairs'),
+    ('EAO.Properties.C02', 'EAO.C02.Ex.ec_nonneg_needed', 'witness that the two-variable contract needs ec >= 0: spread -1 lets the model earn 2 with zero net flow, the textbook contract earns 0'),
+]
+COMPONENTS_C02 = ['oracle textbook: independent scipy/HiGHS LP over physical quantities vs eaopack optimum (2e-6 rel.) and feasibility of eaopack\'s dispatch in it (1e-6); repeated set-up on the same objects',
+                  'builder correspondences: harness/comp/contract.py, harness/comp/storage.py']
+
 
 # =========================================================================================== the reference
 def forever_overflows(tz):
